@@ -1062,6 +1062,8 @@ func runC21(c *Ctx) {
 		c.check(okHdr && okTrim, "header", bid, p.Pos(f.Decl.Pos()), "the string starts with itemSep+kvSep and one trailing itemSep is trimmed", bid+" no longer starts its string with itemSep+kvSep (the decoder reads the separators from the first two characters) or no longer trims the trailing item separator")
 	}
 	checkParamsEmittedUnconditionally(c, "emission.unconditional")
+	checkErrBranchFails(c, "errors-surface.error-branch-fails", errBranchExceptions, "pkg/sidecar/param")
+	checkErrDisciplineAll(c, "errors-surface.every-error-tested", "pkg/sidecar/param")
 }
 
 // ---------------------------------------------------------------------------------------------------
